@@ -12,7 +12,7 @@ Oracles (see DESIGN.md 2/C03):
                  give exactly the unflagged outcome minus that star parameter
  (f) existential every non-colliding shape the flagged result accepts is accepted by sig for some choice
                  of hidden arguments (hidden positional count when hide_args, hidden keyword set when
-                 hide_kwargs -- the most lenient reading)
+                 hide_kwargs), the named arguments being passed in any case
 """
 import itertools
 
@@ -235,7 +235,7 @@ def check_flagged(spec, sig, n, names, fl, shapes, stats, enum):
         ok = False
         for total in (range(0, L + 2) if ha else (n,)):
             extra = [k for k in sigkw if k not in K] if hk else []
-            base_names = () if hk else tuple(names)
+            base_names = tuple(names)      # named arguments are passed whatever is hidden (F19)
             for r in range(len(extra) + 1):
                 for K2 in itertools.combinations(extra, r):
                     if b.accepts(m + total, tuple(set(K) | set(K2) | set(base_names))):
